@@ -35,11 +35,19 @@ class Tok:
     `excl` (and, optionally, does not start with a digit or a dot)"""
     EXCLUDES = frozenset(' \n\t\r\x0b\x0c"\',[]{}:')
 
-    def __init__(self, name, length, excl=None, first_nondigit=False):
+    def __init__(self, name, length, excl=None, first_nondigit=False,
+                 flags=None):
         self.name = name
         self.length = length
         self.excl = frozenset(excl) if excl is not None else Tok.EXCLUDES
         self.first_nondigit = first_nondigit
+        # flags: callable needle -> Sym(bool) "this word contains needle"
+        # (an input-level unknown, so that both outcomes are explored and a
+        # counterexample can be replayed with a word that really contains it)
+        self.flags = flags
+
+    def max_len(self):
+        return self.length if isinstance(self.length, int) else 10 ** 6
 
 
 class NumText:
@@ -56,6 +64,19 @@ class NumText:
 
     def __repr__(self):
         return 'Tok(%s)' % self.name
+
+
+class SciText:
+    """the 14 characters 'd.ddddddddE+xx' of '{: 2.8E}' (the sign column is
+    a separate literal piece ' ' or '-'): denotes m >= 0 with
+    |m - |v|| <= 5e-9 |v|; contains no blank"""
+
+    def __init__(self, d, width=14):
+        self.d = d
+        self.width = width
+
+    def __repr__(self):
+        return 'SciText(%r)' % (self.d,)
 
 
 class SStr:
@@ -89,7 +110,7 @@ class SStr:
     def plen(self, p):
         if isinstance(p, str):
             return len(p)
-        if isinstance(p, IntText):
+        if isinstance(p, (IntText, SciText)):
             return p.width
         return p.length          # Tok / NumText
 
@@ -185,7 +206,8 @@ def equals(a, b, ops):
                 return Sym(z3.Bool('streq!%s!%s' % (n1, n2)))
             raise Unsupported('comparison of distinct unknown tokens')
         # Tok vs literal / IntText
-        if isinstance(x, NumText) or isinstance(y, NumText):
+        if isinstance(x, (NumText, SciText)) or \
+                isinstance(y, (NumText, SciText)):
             if x is y:
                 pa.pop(0)
                 pb.pop(0)
@@ -232,7 +254,13 @@ def _needle_ok(s, needle):
         if isinstance(p, NumText) and any(ch.isdigit() or ch == '.'
                                           for ch in needle):
             return False
+        if isinstance(p, SciText) and any(ch.isdigit() or ch in '.E+-'
+                                          for ch in needle):
+            return False
         if isinstance(p, Tok) and not (set(needle) & p.excl):
+            if getattr(p, 'flags', None) is not None and \
+                    len(needle) <= p.max_len():
+                continue        # decided through the token's content flags
             return False
     return True
 
@@ -248,6 +276,15 @@ def _positions(s):
             return None
         tot += l
     return pos, tot
+
+
+def find_from(s, needle, start, ops):
+    s = lift(s)
+    pp = _positions(s)
+    if pp is None:
+        raise Unsupported('find in a string with symbolic-length pieces')
+    r = find(slice_(s, start, None, ops), needle, ops)
+    return r if r < 0 else r + start
 
 
 def find(s, needle, ops, reverse=False):
@@ -282,7 +319,21 @@ def contains(s, needle, ops):
     if not _needle_ok(s, needle):
         raise Unsupported('`in`: %r could match inside an unknown piece'
                           % needle)
-    return any(isinstance(p, str) and needle in p for p in s.pieces)
+    if any(isinstance(p, str) and needle in p for p in s.pieces):
+        return True
+    # a needle without separator characters may lie inside one unknown word
+    # (never across a word boundary when the neighbours are separators)
+    conds = []
+    for k, p in enumerate(s.pieces):
+        if isinstance(p, Tok) and p.flags is not None and \
+                not (set(needle) & p.excl) and len(needle) <= p.max_len():
+            for q in (s.pieces[k - 1] if k else None,
+                      s.pieces[k + 1] if k + 1 < len(s.pieces) else None):
+                if q is not None and not (isinstance(q, str) and
+                                          (q[0] in p.excl or q[-1] in p.excl)):
+                    raise Unsupported('needle may straddle a word boundary')
+            conds.append(p.flags(needle))
+    return ops.any_(conds) if conds else False
 
 
 def _slice_prefix(s, start, stop):
@@ -422,8 +473,17 @@ def _safe_edge(p, cs):
 def to_float(s, ops):
     s = lift(s)
     ps = s.pieces
-    if len(ps) == 1 and isinstance(ps[0], NumText):
+    ps = [p for p in ps if not (isinstance(p, str) and p.strip() == '')]
+    if len(ps) == 1 and isinstance(ps[0], (NumText, SciText)):
         return ps[0].d
+    if len(ps) == 2 and isinstance(ps[0], str) and ps[0].strip() == '-' and \
+            isinstance(ps[1], (NumText, SciText)):
+        import ast
+        return ops.unary(ast.USub(), ps[1].d)
+    if len(ps) > 1 and any(isinstance(p, (NumText, SciText)) for p in ps):
+        # several numbers glued together (e.g. by a minus sign) or a number
+        # glued to other text: not a float literal
+        raise_('ValueError', 'could not convert string to float')
     if len(ps) == 1 and isinstance(ps[0], IntText):
         n = ps[0].n
         if isinstance(n, Sym):
@@ -501,7 +561,33 @@ def float_text(v, spec, interp):
     ctx.atoms.facts.append(d - t <= half)
     ctx.atoms.facts.append(t - d <= half)
     ctx.atoms.facts.append(L >= nd + 2)
+    if getattr(interp, 'concrete_number_lengths', False):
+        # number of integer digits of the printed value: case split
+        for k in range(1, 9):
+            if ctx.branch(mk(d < 10 ** k)):
+                ctx.atoms.facts.append(L == k + 1 + nd)
+                return SStr([NumText(Sym(d), nd, k + 1 + nd)])
+        raise Unsupported('formatted real with more than 8 integer digits')
     return SStr([NumText(Sym(d), nd, Sym(L))])
+
+
+def sci_text(v, interp):
+    """'{: 2.8E}'.format(v): 15 characters for 1e-99 <= |v| < 1e100 or
+    v == 0 (assumed range, stated by the contract); denotes d with
+    |d - v| <= 5e-9 |v|"""
+    ctx = interp.ctx
+    from .values import z3real
+    if isinstance(v, (int, Fraction)) and not isinstance(v, bool):
+        return format(float(v), ' 2.8E')
+    t = z3real(v)
+    m = ctx.fresh('sci', 'real')
+    eps = z3.RealVal('5/1000000000')
+    neg = ctx.branch(mk(t < 0))
+    a = -t if neg else t
+    ctx.atoms.facts.append(m >= 0)
+    ctx.atoms.facts.append(m - a <= a * eps)
+    ctx.atoms.facts.append(a - m <= a * eps)
+    return SStr(['-' if neg else ' ', SciText(Sym(m))])
 
 
 def slice_sym(s, start, interp):
@@ -522,7 +608,13 @@ def slice_sym(s, start, interp):
 
 def to_int(s, ops):
     s = lift(s)
-    ps = s.pieces
+    ps = [p for p in s.pieces if not (isinstance(p, str) and p.strip() == '')]
+    if not ps:
+        raise_('ValueError', 'invalid literal for int()')
+    if any(isinstance(p, (Tok, NumText, SciText)) for p in ps):
+        if any(isinstance(p, Tok) and p.first_nondigit for p in ps):
+            raise_('ValueError', 'invalid literal for int()')
+        raise Unsupported('int() of %r' % (s,))
     if len(ps) == 1 and isinstance(ps[0], IntText):
         return ps[0].n
     if s.is_literal():
@@ -625,6 +717,9 @@ def format_(fmt, args, kwargs, interp):
             out.append(val)
         elif isinstance(val, Sym) and val.kind == 'int':
             out.append(int_text(val, spec, interp))
+        elif isinstance(val, Sym) and val.kind == 'real' and \
+                spec == ' 2.8E':
+            out.append(sci_text(val, interp))
         elif isinstance(val, Sym) and val.kind == 'real':
             out.append(float_text(val, spec, interp))
         elif isinstance(val, bool) or val is None:
@@ -643,7 +738,7 @@ def percent(fmt, args, interp):
     out = []
     k = 0
     pos = 0
-    for m in re.finditer(r'%(0?)(\d*)([ds%])', fmt):
+    for m in re.finditer(r'%(0?)(\d*)(\.\d+f|[ds%])', fmt):
         out.append(fmt[pos:m.start()])
         pos = m.end()
         if m.group(3) == '%':
@@ -651,7 +746,14 @@ def percent(fmt, args, interp):
             continue
         val = args[k]
         k += 1
-        if m.group(3) == 's':
+        if m.group(3).endswith('f'):
+            if isinstance(val, Sym) and val.kind in ('real', 'int'):
+                out.append(float_text(val, m.group(3), interp))
+            elif isinstance(val, (int, Fraction)) and not isinstance(val, bool):
+                out.append(('%' + m.group(3)) % float(val))
+            else:
+                return None
+        elif m.group(3) == 's':
             if not isinstance(val, (str, SStr)) or m.group(2):
                 return None
             out.append(val)
